@@ -34,7 +34,7 @@ func isCompletionTime(t *Term) bool {
 }
 
 func init() {
-	register(&Rule{ID: "C02.completion", Props: []string{"C02", "C15", "C07", "C20"}, Floor: 6,
+	register(&Rule{ID: "C02.completion", Props: []string{"C02", "C15", "C07", "C20", "C08"}, Floor: 6,
 		Doc: "completion time is the single term BlockTime + UnbondingTime, used for queue key, index key and result",
 		Run: func(e *Engine, r *RuleRun) {
 			if q := r.Need("keeper.Keeper.queueUndelegation"); q != nil {
